@@ -65,6 +65,19 @@ impl Copy for StatusCode {}
 impl StatusCode {
     #[verifier::external_body]
     pub fn is_success(&self) -> (b: bool) ensures b == (200 <= status_code(*self) < 300) { unimplemented!() }
+    #[verifier::external_body]
+    pub fn as_u16(&self) -> (r: u16) ensures r as int == status_code(*self) { unimplemented!() }
+}
+/// StatusCode::OK and friends (associated consts of http::StatusCode)
+#[verifier::external_body]
+pub fn vx_status_const(code: u16) -> (r: StatusCode) ensures status_code(r) == code as int { unimplemented!() }
+impl vstd::std_specs::cmp::PartialEqSpecImpl for StatusCode {
+    open spec fn obeys_eq_spec() -> bool { true }
+    open spec fn eq_spec(&self, other: &StatusCode) -> bool { status_code(*self) == status_code(*other) }
+}
+impl PartialEq for StatusCode {
+    #[verifier::external_body]
+    fn eq(&self, other: &StatusCode) -> (b: bool) ensures b == (status_code(*self) == status_code(*other)) { unimplemented!() }
 }
 /// http::response::Parts (only the two fields the library reads)
 pub struct Parts { pub status: StatusCode, pub headers: HeaderMap }
